@@ -4,6 +4,7 @@
 use serde_json::{json, Value};
 
 use crate::e1::{self, P};
+use crate::e2::{self, AsyncPlan};
 use crate::families::*;
 use crate::provider::*;
 use crate::report::{Ctx, Report, Tier};
@@ -473,6 +474,10 @@ pub fn run_property(ctx: &Ctx) -> i32 {
     if let Some(p) = P::parse(&ctx.property) {
         return run_e1(ctx, p);
     }
+    match ctx.property.as_str() {
+        "C10" | "C11" | "C12" | "C13" => return run_e2(ctx),
+        _ => {}
+    }
     eprintln!("unknown property {}", ctx.property);
     2
 }
@@ -518,4 +523,171 @@ pub fn replay(path: &str) -> i32 {
             2
         }
     }
+}
+
+/// Debug aid: run the case of a replay file with logging and print everything.
+pub fn show(path: &str) {
+    let text = std::fs::read_to_string(path).expect("read");
+    let v: Value = serde_json::from_str(&text).expect("json");
+    let r = &v["replay"];
+    let case: Case = serde_json::from_value(r["case"].clone()).expect("case");
+    let mut cfg: RunCfg = serde_json::from_value(r["cfg"].clone()).expect("cfg");
+    cfg.log = true;
+    cfg.dump = true;
+    cfg.render = true;
+    println!("{}", serde_json::to_string_pretty(&case.u.describe(&case.p)).unwrap());
+    let res = run_case(&case.u, &case.p, &cfg);
+    println!("outcome: {}", res.outcome.short());
+    println!("render panic: {:?}", res.render_panic);
+    println!("log: {:?}", res.log);
+    if let Some(d) = &res.dump {
+        for (i, c) in d.clauses.iter().enumerate() {
+            println!("clause {i}: {:?} {:?} why={:?}", c.kind, c.literals, c.why);
+        }
+        println!("trail: {:?}", d.trail);
+    }
+    if let Some(m) = &res.rendered.message {
+        println!("message:\n{}", &m[..m.len().min(3000)]);
+    }
+    println!("graph: {}", serde_json::to_string(&res.rendered.graph).unwrap());
+}
+
+// ---------------------------------------------------------------------------
+// E2 / E3 / E4 plans (C10 - C13)
+// ---------------------------------------------------------------------------
+
+fn generic_stuck(prop: String) -> Box<dyn Fn(usize, u64) + Sync + Send> {
+    Box::new(move |f, idx| {
+        let dir = crate::report::verif_root().join("replays").join(&prop);
+        let _ = std::fs::create_dir_all(&dir);
+        let path = dir.join(format!("stuck-{f}-{idx}.json"));
+        let _ = std::fs::write(&path, format!("{{\"kind\":\"stuck\",\"family\":{f},\"index\":{idx}}}"));
+        if prop == "C10" || prop == "C13" || prop == "C04" {
+            println!("VIOLATION property={prop} replay={}", path.display());
+            println!("  what: an execution exceeded the wall limit (non-termination)");
+        } else {
+            eprintln!("MACHINERY ERROR: an execution exceeded the wall limit; family {f} index {idx}");
+        }
+    })
+}
+
+/// F7: the tiny async family (small universes whose FIFO run issues few requests)
+fn f7(tier: &Tier) -> Vec<(Box<dyn Family>, u64)> {
+    let q = *tier == Tier::Quick;
+    vec![
+        (
+            Box::new(Decorated::new("F3 skeletons", skeletons(), 1, false, &|d| !matches!(d, Deco::Soft(_)))) as Box<dyn Family>,
+            1,
+        ),
+        (
+            Box::new(Grid::f1().with_root(RootMenu::List(vec![vec![3, 0, 0], vec![3, 3, 0], vec![3, 3, 3], vec![1, 0, 2]]))),
+            if q { 16 } else { 1 },
+        ),
+    ]
+}
+
+pub fn run_e2(ctx: &Ctx) -> i32 {
+    let prop = ctx.property.clone();
+    let q = ctx.tier == Tier::Quick;
+    let (rule, level): (&str, &'static str) = match prop.as_str() {
+        "C10" => ("for every instance of the tiny async family every completion order of parked provider futures is executed on the real solver under a controlled single-threaded executor (complete schedule tree when it has <= cap runs, otherwise all schedules with <= d deviations from FIFO); non-trivial = distinct instance on which >= 2 different provider call orders were observed", "model_checking"),
+        "C11" => ("every quiescent point of every schedule explored as in C10: every package mentioned by dependency information already delivered must have its get_candidates request issued; non-trivial = distinct instance whose root mentions >= 2 packages", "model_checking"),
+        "C12" => ("for every instance: baseline run counts K polls of should_cancel_with_value; then for every k < K and mode in {sticky, transient} the run is repeated with cancellation firing at poll k (sync), and for the async family for every k and every schedule with bounded deviations; non-trivial = distinct instance with >= 2 poll points", "fault_enumeration"),
+        _ => ("all sequences of solve calls (length <= depth) over a 5-problem alphabet on ONE solver, optionally with one call cancelled at every poll index (sync), and [cancelled call under every schedule, then a second call] (async); each call compared with a fresh solver; non-trivial = every distinct universe explored this way", "model_checking"),
+    };
+    let mut rep = Report::new(level, rule);
+    rep.assumptions.push("single-threaded executor that completes one (or, with pairs, two) parked provider future(s) per quiescent point".into());
+    let mut states = 0u64;
+    let mut transitions = 0u64;
+    let fams: Vec<(Box<dyn Family>, u64)> = match prop.as_str() {
+        "C12" | "C13" => {
+            let mut v = f7(&ctx.tier);
+            v.push((
+                Box::new(Decorated::new("F5 soft skeletons", soft_skeletons(), 1, false, &|d| matches!(d, Deco::Soft(_)))),
+                if q { 4 } else { 1 },
+            ));
+            v
+        }
+        _ => f7(&ctx.tier),
+    };
+    let plans: Vec<AsyncPlan> = if q {
+        vec![
+            AsyncPlan { mask: K_CANDS | K_DEPS, pairs: false, hint: None, complete_cap: 3000, dev_bound: 2, dev_cap: 3000 },
+            AsyncPlan { mask: K_CANDS | K_DEPS, pairs: false, hint: Some(Hint::All), complete_cap: 1000, dev_bound: 1, dev_cap: 1000 },
+        ]
+    } else {
+        vec![
+            AsyncPlan { mask: K_CANDS | K_DEPS, pairs: false, hint: None, complete_cap: 20000, dev_bound: 3, dev_cap: 50000 },
+            AsyncPlan { mask: K_CANDS | K_DEPS | K_FILTER | K_SORT, pairs: false, hint: Some(Hint::All), complete_cap: 20000, dev_bound: 2, dev_cap: 50000 },
+            AsyncPlan { mask: K_CANDS | K_DEPS, pairs: true, hint: None, complete_cap: 20000, dev_bound: 2, dev_cap: 50000 },
+        ]
+    };
+    for (fi, (fam, stride)) in fams.iter().enumerate() {
+        let opts = SweepOpts {
+            threads: threads(),
+            wall_limit_s: 120,
+            on_stuck: generic_stuck(prop.clone()),
+            fam_no: fi,
+            stride: *stride,
+            offset: if *stride > 1 { ctx.seed % *stride } else { 0 },
+        };
+        let plans = &plans;
+        let prop_s = prop.as_str();
+        let acc = sweep(&**fam, &opts, &|idx, case, acc| {
+            if !is_wellformed(case) {
+                return;
+            }
+            acc.count("cases");
+            match prop_s {
+                "C10" | "C11" => {
+                    for (pi, plan) in plans.iter().enumerate() {
+                        e2::check_c10_c11(prop_s, case, plan, (fi, idx, pi as u32), acc);
+                    }
+                }
+                "C12" => {
+                    e2::check_c12_sync(case, None, (fi, idx, 0), acc);
+                    e2::check_c12_sync(case, Some(Hint::All), (fi, idx, 1), acc);
+                    let p = AsyncPlan { complete_cap: if q { 40 } else { 400 }, dev_bound: 1, dev_cap: if q { 40 } else { 400 }, ..plans[0].clone() };
+                    e2::check_c12_async(case, &p, (fi, idx, 2), acc);
+                }
+                _ => {
+                    e2::check_c13_sync(case, None, if q { 2 } else { 3 }, true, (fi, idx, 0), acc);
+                    e2::check_c13_sync(case, Some(Hint::All), 2, !q, (fi, idx, 1), acc);
+                    let p = AsyncPlan { complete_cap: if q { 30 } else { 300 }, dev_bound: 1, dev_cap: if q { 30 } else { 300 }, ..plans[0].clone() };
+                    e2::check_c13_async(case, &p, (fi, idx, 2), acc);
+                }
+            }
+        });
+        states += acc.get("cases");
+        transitions += acc.evaluations;
+        let name = format!("{}{}", fam.name(), if *stride > 1 { format!(" (every {stride}th index)") } else { String::new() });
+        eprintln!("[{}] {}: {} cases, {} executions, {:.1}s", prop, name, acc.get("cases"), acc.evaluations, ctx.t0.elapsed().as_secs_f64());
+        rep.push(&name, acc, *stride == 1, fam.len());
+    }
+    rep.extra.insert("states".into(), json!(states));
+    rep.extra.insert("transitions".into(), json!(transitions));
+    rep.extra.insert("traces_validated_against_impl".into(), json!(transitions));
+    rep.extra.insert("plans".into(), json!(plans.iter().map(|p| format!("{p:?}")).collect::<Vec<_>>()));
+    match prop.as_str() {
+        "C10" => {
+            let a = rep.counter("instances_with_2+_distinct_call_orders");
+            let b = rep.counter("schedules");
+            rep.require(a > 10 && b > 1000, "schedules never interleaved");
+        }
+        "C11" => {
+            let a = rep.counter("quiescent_points_with_2+_pending_candidate_requests");
+            rep.require(a > 10, "never two candidate requests in flight");
+        }
+        "C12" => {
+            let a = rep.counter("cancellations_checked");
+            let b = rep.counter("cancelled_while_requests_in_flight");
+            rep.require(a > 1000 && b > 0, "cancellation points never reached / never with requests in flight");
+        }
+        _ => {
+            let a = rep.counter("later_calls_served_entirely_from_cache");
+            let b = rep.counter("histories_cancelled_with_requests_in_flight");
+            rep.require(a > 0 && b > 0, "no history hit the cache / none cancelled with requests in flight");
+        }
+    }
+    rep.finish(ctx)
 }
